@@ -87,7 +87,20 @@ fn render(f: &[&str]) -> Option<(Palette, String)> {
         _ => panic!("flag"),
     };
     let input = String::from_utf8(unhex(f[4])).ok()?;
-    let term = Term::new().palette(palette).fg_color(fg).bg_color(bg).background(background);
+    // the builder methods are independent of each other: apply them in an order (and with a
+    // `min_width_px`, whose only effect is on the masked width attribute) chosen from the input
+    let h = input.bytes().fold(7u32, |a, b| a.wrapping_mul(31).wrapping_add(b as u32));
+    let minw = [720usize, 720, 10, 2000][(h % 4) as usize];
+    let mut term = Term::new();
+    for k in 0..5 {
+        term = match (k + h / 4) % 5 {
+            0 => term.palette(palette),
+            1 => term.fg_color(fg),
+            2 => term.bg_color(bg),
+            3 => term.background(background),
+            _ => term.min_width_px(minw),
+        };
+    }
     Some((palette, term.render_svg(&input)))
 }
 
